@@ -111,7 +111,10 @@ mutual
         match s with
         | c :: _ => do pure (true, ← liftRes "str" (MSet.add [] (c : Int)), e, st)
         | [] => .error "optimise: empty string (index out of range)"
-      | .rng lo hi => do pure (true, ← liftRes "rng" (MSet.addRange [] (lo : Int) (hi : Int)), e, st)
+      | .rng lo hi =>
+        -- `if lower <= upper { s.AddRange(lower, upper) }`: a reversed range matches nothing
+        if lo ≤ hi then do pure (true, ← liftRes "rng" (MSet.addRange [] (lo : Int) (hi : Int)), e, st)
+        else pure (true, [], e, st)
       | .alt es => do
         let (cs, es', st1) ← optL firstPass f es st
         -- consumes = the conjunction over ALL alternatives (starts `true`); s = union of all
@@ -119,7 +122,9 @@ mutual
         let s ← cs.foldlM (fun acc p => liftRes "union" (MSet.union acc p.2)) ([] : MSet)
         -- `if firstPass || !consumes { break }`: a choice with an alternative that may match
         -- without consuming stays ordered
-        if firstPass || !consumes then pure (consumes, s, .alt es', st1)
+        -- `dispatch`: every alternative consumes AND has at least one first character
+        let dispatch := cs.all (fun p => p.1 && decide (MSet.len p.2 > 0))
+        if firstPass || !dispatch then pure (consumes, s, .alt es', st1)
         else
           let sets := cs.map (·.2)
           let marks := markIntersects sets
